@@ -75,7 +75,8 @@ Fixpoint ex_nodes (tags : list str) (l : nodes) (s : est) {struct l} : list out 
 with ex_node (tags : list str) (n : node) (s : est) {struct n} : list out * est :=
   match n with
   | NText content =>
-      ([], s)                                   (* whitespace inside a comment window is ignored; other text is skipped *)
+      (* whitespace inside a comment window is ignored; any other text closes the window *)
+      if intc s && is_blank_text content then ([], s) else ([], {| tc := tc s; intc := false |})
   | NComment line text =>
       let v := strip text in
       if intc s then ([], {| tc := tc s ++ split_comment line v; intc := true |})
@@ -83,7 +84,7 @@ with ex_node (tags : list str) (n : node) (s : est) {struct n} : list out * est 
         let hits := filter (fun t => starts_with t v) tags in
         match hits with
         | [] => ([], s)
-        | _ => ([], {| tc := tc s ++ flat_map (fun _ => split_comment line v) hits; intc := true |})
+        | _ => ([], {| tc := split_comment line v; intc := true |})    (* a new block: earlier comments are dropped *)
         end
   | NControlEnd => ([], {| tc := tc s; intc := false |})
   | NCodeNode k line c =>
@@ -92,7 +93,7 @@ with ex_node (tags : list str) (n : node) (s : est) {struct n} : list out * est 
   | NTagCode line c kids =>
       let '(o, s1) := process line c s in
       (o ++ ex_nodes tags kids est0, s1)
-  | NTagOther kids => ([], s)
+  | NTagOther kids => ([], {| tc := tc s; intc := false |})
   end.
 
 Definition extract (tags : list str) (l : nodes) : list out := ex_nodes tags l est0.
